@@ -166,6 +166,46 @@ class Curve:
         return x3, (lam * (x1 - x3) - y1) % p
 
     def mul(self, k, pt):
+        """k * pt, left-to-right double-and-add in Jacobian coordinates (X/Z^2, Y/Z^3), one inversion at the end;
+        self_check() compares it with repeated affine addition and with the RFC 5903 vectors"""
+        if pt is None or k % self.n == 0:
+            return None
+        p, a, (x2, y2) = self.p, self.a, pt
+        X, Y, Z = 0, 1, 0                                   # infinity
+        for bit in bin(k)[2:]:
+            if Z:                                           # double
+                yy = Y * Y % p
+                s4 = 4 * X * yy % p
+                m = (3 * X * X + a * pow(Z, 4, p)) % p
+                Z = 2 * Y * Z % p
+                X = (m * m - 2 * s4) % p
+                Y = (m * (s4 - X) - 8 * yy * yy) % p
+            if bit == '1':                                  # add the affine point
+                if not Z:
+                    X, Y, Z = x2, y2, 1
+                    continue
+                zz = Z * Z % p
+                h, r = (x2 * zz - X) % p, (y2 * zz * Z - Y) % p
+                if h == 0:                                  # same x: doubling or infinity; not on the fast path
+                    cur = self._affine(X, Y, Z)
+                    nxt = self.add(cur, pt)
+                    X, Y, Z = (0, 1, 0) if nxt is None else (nxt[0], nxt[1], 1)
+                    continue
+                hh = h * h % p
+                v = X * hh % p
+                X3 = (r * r - hh * h - 2 * v) % p
+                Y = (r * (v - X3) - Y * hh * h) % p
+                X, Z = X3, Z * h % p
+        return self._affine(X, Y, Z)
+
+    def _affine(self, X, Y, Z):
+        if not Z:
+            return None
+        zi = pow(Z, -1, self.p)
+        return X * zi * zi % self.p, Y * zi * zi * zi % self.p
+
+    def mul_affine(self, k, pt):
+        """the literal version (affine double-and-add), kept as the cross-check of mul()"""
         acc = None
         while k:
             if k & 1:
@@ -197,7 +237,7 @@ CURVES = {
                  'FE1DC127 A2FFA8DE 3348B3C1 856A429B F97E7E31 C2E5BD66'),
               _h('0118 39296A78 9A3BC004 5C8A5FB4 2C7D1BD9 98F54449 579B4468 17AFBD17 273E662C 97EE7299 5EF42640 '
                  'C550B901 3FAD0761 353C7086 A272C240 88BE9476 9FD16650'),
-              _h('01FF FFFFFFFF FFFFFFFF FFFFFFFF FFFFFFFF FFFFFFFF FFFFFFFF FFFFFFFF FFFFFFFF FFFFFFFA 51868783 '
+              _h('01FF FFFFFFFF FFFFFFFF FFFFFFFF FFFFFFFF FFFFFFFF FFFFFFFF FFFFFFFF FFFFFFFA 51868783 '
                  'BF2F966B 7FCC0148 F709A5D0 3BB5C9B8 899C47AE BB6FB71E 91386409')),
 }
 
@@ -349,20 +389,21 @@ def self_check():
     # RFC 5903 section 8
     for group, (i, gix, giy, r, grx, gry, girx) in RFC5903_KAT.items():
         c = CURVES[group]
-        assert c.on_curve(c.g) and c.mul(c.n, c.g) is None, c.name
+        assert c.on_curve(c.g) and c.mul(c.n, c.g) is None and c.mul_affine(c.n, c.g) is None, c.name
+        assert c.mul(c.n - 1, c.g) == (c.g[0], c.p - c.g[1]) and c.mul(2, c.g) == c.add(c.g, c.g), c.name
+        assert c.mul(r, (gix, giy)) == c.mul_affine(r, (gix, giy)) and c.mul(i, c.g) == c.mul_affine(i, c.g), c.name
         assert c.mul(i, c.g) == (gix, giy), c.name
         assert c.mul(r, c.g) == (grx, gry), c.name
         assert ecp_shared(group, i, ecp_encode(group, (grx, gry))) == girx.to_bytes(c.size, 'big'), c.name
         assert ecp_shared(group, r, ecp_public(group, i)) == girx.to_bytes(c.size, 'big'), c.name
         n += 5
     # RFC 3526: every prime starts and ends with 64 one-bits, continues with the digits of pi (C90FDAA2...),
-    # is 3 mod 4 with (p-1)/2 odd ("safe prime" shape; 2 generates the subgroup of order (p-1)/2)
+    # and passes a base-2 Euler test (a wrong constant c would fail it with overwhelming probability)
     for bits in MODP_C:
         p = modp_prime(bits)
         assert p.bit_length() == bits and p >> (bits - 64) == 2**64 - 1 and p & (2**64 - 1) == 2**64 - 1
         assert (p >> (bits - 128)) & (2**64 - 1) == 0xC90FDAA22168C234
-        assert pow(2, (p - 1) // 2, p) == 1          # Euler: 2 is a quadratic residue, p prime (Fermat base 2)
-        assert pow(3, p - 1, p) == 1                 # Fermat base 3
+        assert pow(2, (p - 1) // 2, p) == 1          # Euler criterion: p passes as a prime, 2 is a quadratic residue
         n += 1
     # all five primes share their leading digits (same pi expansion)
     assert modp_prime(8192) >> (8192 - 1900) == modp_prime(2048) >> (2048 - 1900)
